@@ -151,6 +151,10 @@ class FaultTableMonitor(Monitor):
                 if fin_inds:
                     w.violate("C14.abandon_but_finished_indication", f"{rec.ent}.{rec.hk} cond={cond} same call", "")
                 self.abandoned.add((key, ftid))
+        ab_conds = {f[2] for f in rec.faults if f[0] == "abandon"}
+        if any(f[0] != "abandon" and f[2] in ab_conds for f in rec.faults):
+            # "no other callback kind fires for that fault": an abandonment is the whole outcome of the call that declares it
+            w.violate("C14.extra_callback_at_abandon", f"{rec.ent}.{rec.hk} callbacks={[(f[0], f[2]) for f in rec.faults]} step={rec.pre.step}", "")
         for cond, n in seen.items():
             if n > 1:
                 w.violate("C14.callback_once", f"{rec.ent}.{rec.hk} cond={cond} n={n} step={rec.pre.step} in={rec.inb_kind}", "")
